@@ -124,7 +124,12 @@ func Digest(r io.Reader, hashFunc crypto.Hash) (*CabinetDigest, error) {
 	}
 	_ = binary.Write(dw, binary.LittleEndian, sb)
 	// save the updated header for writing out later
-	patched := bytes.NewBuffer(make([]byte, 0, outHeader.OffsetFiles))
+	// the header is not to be trusted for the size of the buffer
+	prealloc := outHeader.OffsetFiles
+	if prealloc > 1<<16 {
+		prealloc = 1 << 16
+	}
+	patched := bytes.NewBuffer(make([]byte, 0, prealloc))
 	_ = binary.Write(patched, binary.LittleEndian, outHeader)
 	_ = binary.Write(patched, binary.LittleEndian, outReserveHeader)
 	_ = binary.Write(patched, binary.LittleEndian, outSigHeader)
@@ -144,10 +149,12 @@ func Digest(r io.Reader, hashFunc crypto.Hash) (*CabinetDigest, error) {
 	}
 	if cab.SignatureHeader != nil {
 		// read old signature for verification purposes
-		cab.Signature = make([]byte, cab.SignatureHeader.SignatureSize)
-		if _, err := io.ReadFull(r, cab.Signature); err != nil {
+		// let the buffer grow with what is actually there
+		var sig bytes.Buffer
+		if _, err := io.CopyN(&sig, r, int64(cab.SignatureHeader.SignatureSize)); err != nil {
 			return nil, err
 		}
+		cab.Signature = sig.Bytes()
 	}
 	// ensure there is nothing after the cabinet and signature
 	if _, err := r.Read(make([]byte, 1)); err == nil {
